@@ -13,7 +13,7 @@
 extern "C" {
 void hook_record_start(unsigned k); // marks the start of the k-th record of the current thread in the event list
 // kind 0: stdout_mt::sink, 1: StdErrThreaded::sink, 2: logger<..., stdout_mt, ...>::info() << record, 9: the lock-free StdOut sink (negative control)
-void thread_body(unsigned kind, unsigned nrec, const char* r0, const char* r1);
+void thread_body(unsigned kind, unsigned nrec, const char* r0, const char* r1, unsigned sev0, unsigned sev1);
 }
 namespace
 {
@@ -39,21 +39,22 @@ using flt = nitro::log::filter::severity_filter<Rec, 0>;
 using mt_logger = nitro::log::logger<R, fmt, nitro::log::sink::stdout_mt, flt>;
 } // namespace
 
-void thread_body(unsigned kind, unsigned nrec, const char* r0, const char* r1)
+void thread_body(unsigned kind, unsigned nrec, const char* r0, const char* r1, unsigned sev0, unsigned sev1)
 {
     const char* recs[2] = { r0, r1 };
+    const nitro::log::severity_level sevs[2] = { static_cast<nitro::log::severity_level>(sev0), static_cast<nitro::log::severity_level>(sev1) };
     for (unsigned k = 0; k < nrec && k < 2; ++k)
     {
         hook_record_start(k);
         if (kind == 0)
         {
             nitro::log::sink::stdout_mt s; // a fresh sink object per record: the mutex must still be shared
-            s.sink(nitro::log::severity_level::info, recs[k]);
+            s.sink(sevs[k], recs[k]);
         }
         else if (kind == 1)
         {
             nitro::log::sink::StdErrThreaded s;
-            s.sink(nitro::log::severity_level::info, recs[k]);
+            s.sink(sevs[k], recs[k]);
         }
         else if (kind == 2)
         {
@@ -62,7 +63,7 @@ void thread_body(unsigned kind, unsigned nrec, const char* r0, const char* r1)
         else
         {
             nitro::log::sink::StdOut s;
-            s.sink(nitro::log::severity_level::info, recs[k]);
+            s.sink(sevs[k], recs[k]);
         }
     }
 }
